@@ -92,7 +92,7 @@ func C05(c *Ctx) {
 	}
 	c.R.Fn(fname(walk))
 	// the Step call (or the call of the helper that takes the step)
-	site0, stepArgs, nSites := walkStepSite(c, walk, step)
+	site0, stepArgs, nSites, stepHelpers := walkStepChain(c, walk, step)
 	var calls []*ssa.Call
 	for i := 0; i < nSites; i++ {
 		calls = append(calls, site0)
@@ -196,6 +196,21 @@ func C05(c *Ctx) {
 			ds := defsUpTo(v, Q, scope)
 			return len(ds) == 1 && ds[0] == ssa.Value(Q)
 		}
+		// the operands of Step are resolved with the step helpers in scope as well (one of them may pick the message)
+		scopeOff := append([]*ssa.Function{}, scope...)
+		for _, h := range stepHelpers {
+			dup := false
+			for _, f := range scopeOff {
+				dup = dup || f == h
+			}
+			if !dup {
+				scopeOff = append(scopeOff, h)
+			}
+		}
+		isQOff := func(v ssa.Value) bool {
+			ds := defsUpTo(v, Q, scopeOff)
+			return len(ds) == 1 && ds[0] == ssa.Value(Q)
+		}
 		for _, bv := range back {
 			for _, d := range defsUpTo(bv, Q, scope) {
 				if d == ssa.Value(Q) {
@@ -242,7 +257,7 @@ func C05(c *Ctx) {
 			c.R.Check(merged, "C05-R2", "Walk: consumed messages are always popped", c.pos(pop), "the not-consumed edge keeps the queue, the consumed edge pops", "a consumed message is not always removed (or an unconsumed one is)")
 		}
 		// message offered = Q[0]
-		offered := deepDefs(args[3], scope)
+		offered := deepDefs(args[3], scopeOff)
 		okOff := len(offered) > 0
 		for _, d := range offered {
 			if ssau.IsNilConst(d) {
@@ -254,7 +269,7 @@ func C05(c *Ctx) {
 				continue
 			}
 			ia, ok := ld.X.(*ssa.IndexAddr)
-			if !ok || !isQ(ia.X) {
+			if !ok || !isQOff(ia.X) {
 				okOff = false
 				continue
 			}
@@ -693,6 +708,14 @@ func derivesFromCall(v ssa.Value, call *ssa.Call, scope []*ssa.Function) bool {
 // the stride Step returned or a fresh stride standing in for a missing one.  The operands are given in Step's
 // order (s, ctx, st, pending, c, props), expressed as values of Walk (nil where the helper passes something else).
 func walkStepSite(c *Ctx, walk, step *ssa.Function) (site *ssa.Call, args []ssa.Value, n int) {
+	site, args, n, _ = walkStepChain(c, walk, step)
+	return
+}
+
+// walkStepChain is walkStepSite; helpers lists the functions between Walk's step site and the call of Step, outermost
+// first (none when Walk calls Step itself).  An operand of Step that one of them computes from what it is handed is
+// returned as the helper's value: it is resolved with the helpers in scope.
+func walkStepChain(c *Ctx, walk, step *ssa.Function) (site *ssa.Call, args []ssa.Value, n int, helpers []*ssa.Function) {
 	var direct []*ssa.Call
 	ssau.Instrs(walk, func(in ssa.Instruction) {
 		if ci, ok := in.(*ssa.Call); ok && ci.Common().StaticCallee() == step {
@@ -700,35 +723,45 @@ func walkStepSite(c *Ctx, walk, step *ssa.Function) (site *ssa.Call, args []ssa.
 		}
 	})
 	if len(direct) > 0 {
-		return direct[0], direct[0].Common().Args, len(direct)
+		return direct[0], direct[0].Common().Args, len(direct), nil
 	}
-	var sites []*ssa.Call
-	var inner []*ssa.Call
-	ssau.Instrs(walk, func(in ssa.Instruction) {
-		ci, ok := in.(*ssa.Call)
-		if !ok {
-			return
-		}
-		h := ci.Common().StaticCallee()
-		if h == nil || h.Blocks == nil || prog.PkgOf(h) != "core" || h == walk {
-			return
+	// stepper(h): h takes exactly one step whenever it is called — it calls Step, or a helper that does, exactly once,
+	// outside any loop and before every return — and its result #0 is that step's stride (or a fresh one).  chain lists
+	// the call sites from the one in h down to the call of Step itself.
+	var stepper func(h *ssa.Function, depth int) (chain []*ssa.Call, ok bool)
+	stepper = func(h *ssa.Function, depth int) ([]*ssa.Call, bool) {
+		if h == nil || h.Blocks == nil || prog.PkgOf(h) != "core" || h == walk || h == step || depth > 3 {
+			return nil, false
 		}
 		var sc []*ssa.Call
+		var below [][]*ssa.Call
 		ssau.Instrs(h, func(i2 ssa.Instruction) {
-			if c2, ok := i2.(*ssa.Call); ok && c2.Common().StaticCallee() == step {
+			c2, ok := i2.(*ssa.Call)
+			if !ok {
+				return
+			}
+			if c2.Common().StaticCallee() == step {
 				sc = append(sc, c2)
+				below = append(below, nil)
+			} else if g := c2.Common().StaticCallee(); g != nil && g != h {
+				if ch, is := stepper(g, depth+1); is {
+					sc = append(sc, c2)
+					below = append(below, ch)
+				}
 			}
 		})
 		if len(sc) != 1 || flow.InCycle(sc[0].Block()) {
-			return
+			return nil, false
 		}
 		for _, b := range h.Blocks {
 			if _, isRet := b.Instrs[len(b.Instrs)-1].(*ssa.Return); isRet && b != h.Recover && !sc[0].Block().Dominates(b) {
-				return
+				return nil, false
 			}
 		}
 		// result #0: Step's stride, or a fresh one
-		okRes := h.Signature.Results().Len() >= 1
+		if h.Signature.Results().Len() < 1 {
+			return nil, false
+		}
 		for _, b := range h.Blocks {
 			ret, isRet := b.Instrs[len(b.Instrs)-1].(*ssa.Return)
 			if !isRet || len(ret.Results) == 0 {
@@ -738,38 +771,64 @@ func walkStepSite(c *Ctx, walk, step *ssa.Function) (site *ssa.Call, args []ssa.
 				if ex, isEx := d.(*ssa.Extract); isEx && ex.Tuple == ssa.Value(sc[0]) && ex.Index == 0 {
 					continue
 				}
+				if d == ssa.Value(sc[0]) && below[0] != nil {
+					continue // the single result of the helper below, which is the stride
+				}
 				if cl, isC := d.(*ssa.Call); isC && cl.Common().StaticCallee() != nil && cl.Common().StaticCallee().Name() == "NewStride" {
 					continue
 				}
 				if localFresh(d) {
 					continue
 				}
-				okRes = false
+				return nil, false
 			}
 		}
-		if !okRes {
+		return append([]*ssa.Call{sc[0]}, below[0]...), true
+	}
+	var sites []*ssa.Call
+	var chains [][]*ssa.Call
+	ssau.Instrs(walk, func(in ssa.Instruction) {
+		ci, ok := in.(*ssa.Call)
+		if !ok {
 			return
 		}
-		sites = append(sites, ci)
-		inner = append(inner, sc[0])
+		if ch, is := stepper(ci.Common().StaticCallee(), 0); is {
+			sites = append(sites, ci)
+			chains = append(chains, ch)
+		}
 	})
 	if len(sites) == 0 {
-		return nil, nil, 0
+		return nil, nil, 0, nil
 	}
 	site = sites[0]
-	h := site.Common().StaticCallee()
-	for _, a := range inner[0].Common().Args {
-		var v ssa.Value
-		if pr, isP := a.(*ssa.Parameter); isP {
+	// Step's operands as values of Walk: a parameter of a helper is what the helper is handed, level by level.  An
+	// operand that a helper computes is left as the helper's value (to be resolved with the helpers in scope).
+	up := append([]*ssa.Call{site}, chains[0]...) // up[i+1] is a call in the callee of up[i]; the last one is the call of Step
+	for _, a := range up[len(up)-1].Common().Args {
+		v := a
+		for lvl := len(up) - 2; lvl >= 0; lvl-- {
+			pr, isP := v.(*ssa.Parameter)
+			if !isP {
+				break
+			}
+			h := up[lvl].Common().StaticCallee()
+			var w ssa.Value
 			for i, hp := range h.Params {
-				if hp == pr && i < len(site.Common().Args) {
-					v = site.Common().Args[i]
+				if hp == pr && i < len(up[lvl].Common().Args) {
+					w = up[lvl].Common().Args[i]
 				}
+			}
+			v = w
+			if v == nil {
+				break
 			}
 		}
 		args = append(args, v)
 	}
-	return site, args, len(sites)
+	for _, cl := range up[:len(up)-1] {
+		helpers = append(helpers, cl.Common().StaticCallee())
+	}
+	return site, args, len(sites), helpers
 }
 
 // c05LimitProvenance: every value the loop bound can take must be the Limit
